@@ -147,6 +147,65 @@ def pre_blend_BC := anyU32 ++ anyU32
 def pre_blend_ABCD := anyU32 ++ anyU32
 end Avx2Field
 
+namespace IfmaField
+/-! AVX512-IFMA backend (`backend/vector/ifma/field.rs`): an `F51x4Unreduced` / `F51x4Reduced = [u64x4; 5]` is 20 u64
+lanes; lane `4 i + j` is lane `j` of vector `i` and holds limb `i` (radix 2^51) of element `j` of `(A, B, C, D)`.
+The source documents no numeric pre/post-conditions; `docs/ifma-notes.md` requires the inputs of a multiplication /
+squaring (the type `F51x4Reduced`) to have limbs in `[0, 2^52)`, everything else (`F51x4Unreduced`) is any u64. -/
+def anyU64 : List Itv := rep 20 (ub (2 ^ 64 - 1))
+/-- limbs in `[0, 2^52)` (`F51x4Reduced`) -/
+def reduced : List Itv := rep 20 (ub (2 ^ 52 - 1))
+/-- lane-wise `≤` the lanes of `(16p, 16p, 16p, 16p)` (the constants subtracted from in `negate_lazy`) -/
+def le16p : List Itv := rep 4 (ub (16 * (2 ^ 51 - 19))) ++ rep 16 (ub (16 * (2 ^ 51 - 1)))
+def pre_new := anyU64
+def pre_split := anyU64
+/-- exact requirement of `16p − x` (no documented bound) -/
+def pre_negate_lazy := le16p
+def pre_diff_sum := le16p
+/-- no documented bound: lane-wise sum must fit a u64; here both operands `< 2^63` -/
+def pre_add := rep 40 (ub (2 ^ 63 - 1))
+def pre_reduce := anyU64
+def pre_unreduce := anyU64
+def pre_neg := reduced
+def pre_mul := reduced ++ reduced
+def pre_mul_consts := reduced ++ rep 4 (ub (2 ^ 32 - 1))
+def pre_square := reduced
+def pre_conditional_select := anyU64 ++ anyU64 ++ [ub 1]
+def pre_conditional_assign := anyU64 ++ anyU64 ++ [ub 1]
+def pre_shuffle_AAAA := anyU64
+def pre_reduced_shuffle_AAAA := anyU64
+def pre_shuffle_BBBB := anyU64
+def pre_reduced_shuffle_BBBB := anyU64
+def pre_shuffle_BADC := anyU64
+def pre_reduced_shuffle_BADC := anyU64
+def pre_shuffle_BACD := anyU64
+def pre_reduced_shuffle_BACD := anyU64
+def pre_shuffle_ADDA := anyU64
+def pre_reduced_shuffle_ADDA := anyU64
+def pre_shuffle_CBCB := anyU64
+def pre_reduced_shuffle_CBCB := anyU64
+def pre_shuffle_ABDC := anyU64
+def pre_reduced_shuffle_ABDC := anyU64
+def pre_shuffle_ABAB := anyU64
+def pre_reduced_shuffle_ABAB := anyU64
+def pre_shuffle_DBBD := anyU64
+def pre_reduced_shuffle_DBBD := anyU64
+def pre_shuffle_CACA := anyU64
+def pre_reduced_shuffle_CACA := anyU64
+def pre_blend_D := anyU64 ++ anyU64
+def pre_reduced_blend_D := anyU64 ++ anyU64
+def pre_blend_C := anyU64 ++ anyU64
+def pre_reduced_blend_C := anyU64 ++ anyU64
+def pre_blend_AB := anyU64 ++ anyU64
+def pre_reduced_blend_AB := anyU64 ++ anyU64
+def pre_blend_AC := anyU64 ++ anyU64
+def pre_reduced_blend_AC := anyU64 ++ anyU64
+def pre_blend_AD := anyU64 ++ anyU64
+def pre_reduced_blend_AD := anyU64 ++ anyU64
+def pre_blend_BCD := anyU64 ++ anyU64
+def pre_reduced_blend_BCD := anyU64 ++ anyU64
+end IfmaField
+
 /-- (module, kernel name, program, pre-condition).
 Not listed: the composed Scalar29 items `from_bytes_wide, mul, square, montgomery_mul, as_montgomery`: their
 Karatsuba `mul_internal` uses wrapping subtraction whose non-wrapping is a relational fact that an interval
@@ -226,7 +285,52 @@ def kernels : List (String × String × Prog × List Itv) := [
   ("Avx2Field", "blend_CD", Dalek.Gen.Avx2Field.blend_CD, Avx2Field.pre_blend_CD),
   ("Avx2Field", "blend_AD", Dalek.Gen.Avx2Field.blend_AD, Avx2Field.pre_blend_AD),
   ("Avx2Field", "blend_BC", Dalek.Gen.Avx2Field.blend_BC, Avx2Field.pre_blend_BC),
-  ("Avx2Field", "blend_ABCD", Dalek.Gen.Avx2Field.blend_ABCD, Avx2Field.pre_blend_ABCD)
+  ("Avx2Field", "blend_ABCD", Dalek.Gen.Avx2Field.blend_ABCD, Avx2Field.pre_blend_ABCD),
+  ("IfmaField", "new", Dalek.Gen.IfmaField.new, IfmaField.pre_new),
+  ("IfmaField", "split", Dalek.Gen.IfmaField.split, IfmaField.pre_split),
+  ("IfmaField", "negate_lazy", Dalek.Gen.IfmaField.negate_lazy, IfmaField.pre_negate_lazy),
+  ("IfmaField", "diff_sum", Dalek.Gen.IfmaField.diff_sum, IfmaField.pre_diff_sum),
+  ("IfmaField", "add", Dalek.Gen.IfmaField.add, IfmaField.pre_add),
+  ("IfmaField", "reduce", Dalek.Gen.IfmaField.reduce, IfmaField.pre_reduce),
+  ("IfmaField", "unreduce", Dalek.Gen.IfmaField.unreduce, IfmaField.pre_unreduce),
+  ("IfmaField", "neg", Dalek.Gen.IfmaField.neg, IfmaField.pre_neg),
+  ("IfmaField", "mul", Dalek.Gen.IfmaField.mul, IfmaField.pre_mul),
+  ("IfmaField", "mul_consts", Dalek.Gen.IfmaField.mul_consts, IfmaField.pre_mul_consts),
+  ("IfmaField", "square", Dalek.Gen.IfmaField.square, IfmaField.pre_square),
+  ("IfmaField", "conditional_select", Dalek.Gen.IfmaField.conditional_select, IfmaField.pre_conditional_select),
+  ("IfmaField", "conditional_assign", Dalek.Gen.IfmaField.conditional_assign, IfmaField.pre_conditional_assign),
+  ("IfmaField", "shuffle_AAAA", Dalek.Gen.IfmaField.shuffle_AAAA, IfmaField.pre_shuffle_AAAA),
+  ("IfmaField", "reduced_shuffle_AAAA", Dalek.Gen.IfmaField.reduced_shuffle_AAAA, IfmaField.pre_reduced_shuffle_AAAA),
+  ("IfmaField", "shuffle_BBBB", Dalek.Gen.IfmaField.shuffle_BBBB, IfmaField.pre_shuffle_BBBB),
+  ("IfmaField", "reduced_shuffle_BBBB", Dalek.Gen.IfmaField.reduced_shuffle_BBBB, IfmaField.pre_reduced_shuffle_BBBB),
+  ("IfmaField", "shuffle_BADC", Dalek.Gen.IfmaField.shuffle_BADC, IfmaField.pre_shuffle_BADC),
+  ("IfmaField", "reduced_shuffle_BADC", Dalek.Gen.IfmaField.reduced_shuffle_BADC, IfmaField.pre_reduced_shuffle_BADC),
+  ("IfmaField", "shuffle_BACD", Dalek.Gen.IfmaField.shuffle_BACD, IfmaField.pre_shuffle_BACD),
+  ("IfmaField", "reduced_shuffle_BACD", Dalek.Gen.IfmaField.reduced_shuffle_BACD, IfmaField.pre_reduced_shuffle_BACD),
+  ("IfmaField", "shuffle_ADDA", Dalek.Gen.IfmaField.shuffle_ADDA, IfmaField.pre_shuffle_ADDA),
+  ("IfmaField", "reduced_shuffle_ADDA", Dalek.Gen.IfmaField.reduced_shuffle_ADDA, IfmaField.pre_reduced_shuffle_ADDA),
+  ("IfmaField", "shuffle_CBCB", Dalek.Gen.IfmaField.shuffle_CBCB, IfmaField.pre_shuffle_CBCB),
+  ("IfmaField", "reduced_shuffle_CBCB", Dalek.Gen.IfmaField.reduced_shuffle_CBCB, IfmaField.pre_reduced_shuffle_CBCB),
+  ("IfmaField", "shuffle_ABDC", Dalek.Gen.IfmaField.shuffle_ABDC, IfmaField.pre_shuffle_ABDC),
+  ("IfmaField", "reduced_shuffle_ABDC", Dalek.Gen.IfmaField.reduced_shuffle_ABDC, IfmaField.pre_reduced_shuffle_ABDC),
+  ("IfmaField", "shuffle_ABAB", Dalek.Gen.IfmaField.shuffle_ABAB, IfmaField.pre_shuffle_ABAB),
+  ("IfmaField", "reduced_shuffle_ABAB", Dalek.Gen.IfmaField.reduced_shuffle_ABAB, IfmaField.pre_reduced_shuffle_ABAB),
+  ("IfmaField", "shuffle_DBBD", Dalek.Gen.IfmaField.shuffle_DBBD, IfmaField.pre_shuffle_DBBD),
+  ("IfmaField", "reduced_shuffle_DBBD", Dalek.Gen.IfmaField.reduced_shuffle_DBBD, IfmaField.pre_reduced_shuffle_DBBD),
+  ("IfmaField", "shuffle_CACA", Dalek.Gen.IfmaField.shuffle_CACA, IfmaField.pre_shuffle_CACA),
+  ("IfmaField", "reduced_shuffle_CACA", Dalek.Gen.IfmaField.reduced_shuffle_CACA, IfmaField.pre_reduced_shuffle_CACA),
+  ("IfmaField", "blend_D", Dalek.Gen.IfmaField.blend_D, IfmaField.pre_blend_D),
+  ("IfmaField", "reduced_blend_D", Dalek.Gen.IfmaField.reduced_blend_D, IfmaField.pre_reduced_blend_D),
+  ("IfmaField", "blend_C", Dalek.Gen.IfmaField.blend_C, IfmaField.pre_blend_C),
+  ("IfmaField", "reduced_blend_C", Dalek.Gen.IfmaField.reduced_blend_C, IfmaField.pre_reduced_blend_C),
+  ("IfmaField", "blend_AB", Dalek.Gen.IfmaField.blend_AB, IfmaField.pre_blend_AB),
+  ("IfmaField", "reduced_blend_AB", Dalek.Gen.IfmaField.reduced_blend_AB, IfmaField.pre_reduced_blend_AB),
+  ("IfmaField", "blend_AC", Dalek.Gen.IfmaField.blend_AC, IfmaField.pre_blend_AC),
+  ("IfmaField", "reduced_blend_AC", Dalek.Gen.IfmaField.reduced_blend_AC, IfmaField.pre_reduced_blend_AC),
+  ("IfmaField", "blend_AD", Dalek.Gen.IfmaField.blend_AD, IfmaField.pre_blend_AD),
+  ("IfmaField", "reduced_blend_AD", Dalek.Gen.IfmaField.reduced_blend_AD, IfmaField.pre_reduced_blend_AD),
+  ("IfmaField", "blend_BCD", Dalek.Gen.IfmaField.blend_BCD, IfmaField.pre_blend_BCD),
+  ("IfmaField", "reduced_blend_BCD", Dalek.Gen.IfmaField.reduced_blend_BCD, IfmaField.pre_reduced_blend_BCD)
 ]
 
 end Dalek.Model.Contracts
